@@ -185,7 +185,12 @@ func (fx *Fx) loopEntryAfterPhis(st *State, li *LoopInfo) *State {
 	tag := fmt.Sprintf("loop%d", li.Ordinal)
 	// 1. invariant holds on entry
 	pre := fx.loopVars(st, li)
-	env := &Env{fx: fx, st: st, old: fx.Entry, vars: pre}
+	preInit := map[string]Val{}
+	for n, v := range pre {
+		preInit[n] = v
+		preInit[n+"@pre"] = v
+	}
+	env := &Env{fx: fx, st: st, old: fx.Entry, vars: preInit}
 	nInit := len(fx.Assume)
 	initUnf := ann.UnfoldInit
 	if len(initUnf) == 0 {
